@@ -17,6 +17,7 @@ CONSTANTS
   KFInitOpts = FALSE
   KFV1Hist = FALSE
   PreT = {}
+  TSActs = {"Commit"}
   Balanced = TRUE
   EmitMode = "none"
 INVARIANTS C01_Exact InoSorted OohSorted EmitWalk
